@@ -32,6 +32,7 @@ SKIP_FUNCS = {"main"}
 
 def clause1_own(ctx, P, cg, own):
     leaks = {}
+    attached = {}
     doubles = {}
     unchecked = {}
     sites = {}
@@ -46,14 +47,25 @@ def clause1_own(ctx, P, cg, own):
                 continue
         for i in prod:
             sites[(f.key, Q.ordinal_site(f, i, P))] = (f, i)
+        has_fail_class = any((v.ret_const() is not None and v.ret_const() < 0) or v.ret_is_null() for v in own.views(f)) and \
+            any((v.ret_const() == 0 and f.ret == "i32") or (f.ret and f.ret.endswith("*") and not v.ret_is_null()) for v in own.views(f))
         for v in own.views(f):
             objs, ev, fnd = own.walk(f, v)
+            failing = has_fail_class and ((v.ret_const() is not None and v.ret_const() < 0) or v.ret_is_null())
             for o in objs:
                 if o["site"] is None:
                     continue
                 k = (f.key, Q.ordinal_site(f, o["site"], P))
                 if o["state"] == "owned" and k not in leaks:
                     leaks[k] = (v, o)
+                # failure exit: an object acquired on this path and parked only in a field of the caller's object stays attached
+                # although the function reports failure - it must be released here unless every caller's failure branch runs a
+                # destructor that releases that field
+                if failing and o["state"] == "escaped" and o["escapes"] and all(h == "param-field" for (h, _) in o["escapes"]) and k not in attached:
+                    st = o["escapes"][0][1]
+                    dt = P.term(f, st.a[1])
+                    if dt[0] == "field" and dt[1][0] == "param" and not _callers_release_field(P, cg, own, f, dt[1][1], dt[2], dt[3]):
+                        attached[k] = (v, o, dt)
             for x in fnd:
                 k = (f.key, Q.ordinal_site(f, x.site, P))
                 if x.kind == "double-release" and k not in doubles:
@@ -67,6 +79,11 @@ def clause1_own(ctx, P, cg, own):
                "the %s acquired by %s at %s is neither released, returned, stored away nor handed over on this path (leak)"
                % (kind, P.srcname_of(i.callee), i.loc) if bad else "every path disposes of the %s" % kind,
                witness=bad[0].witness() if bad else None)
+    for k, (v, o, dt) in sorted(attached.items()):
+        f = v.f
+        ctx.ob("C07.1 R-OWN", f, "failure-exit-keeps:" + k[1], False,
+               "%s reports failure on this path but the %s acquired at %s stays attached to %s->%s and no caller's failure branch "
+               "releases that field (leak on the unwinding path)" % (f.srcname, o["kind"], o["site"].loc, fmt_term(dt[1]), dt[3]), witness=v.witness())
     for k, x in sorted(doubles.items()):
         ctx.ob("C07.1 R-OWN", x.f, "double-release:" + k[1], False, x.what, witness=x.view.witness())
     for k, x in sorted(unchecked.items()):
@@ -75,6 +92,47 @@ def clause1_own(ctx, P, cg, own):
     if len(sites) < 60:
         raise AnalysisBroken("acquire sites found: %d (expected >= 60)" % len(sites))
     ctx.floor("C07.1 R-OWN", 60)
+
+
+def _callers_release_field(P, cg, own, f, pidx, struct, field):
+    """does every caller, on the branch where f failed, call something that frees <arg>-><field> ?"""
+    callers = P.callers_of(f)
+    if not callers:
+        return True  # cannot judge (indirect): do not report
+    for c in callers:
+        g = c.fn
+        ok_any = False
+        found_fail_path = False
+        for v in own.views(g):
+            ks = [k for k, i in v.insts() if i.id == c.id]
+            if not ks:
+                continue
+            failed = any(a[0] == "cmp" and a[2][0] == "call" and a[2][3] == c.id and
+                         ((a[3][0] == "const" and (a[1] if p else Q.negate_pred(a[1])) in ("slt", "ne")) or (a[3] == ("null",) and Q._poleq(a, p)))
+                         for (a, p) in v.atoms)
+            if not failed:
+                continue
+            found_fail_path = True
+            rel = False
+            for k, i in v.insts():
+                if k > ks[0] and i.op == "call" and i.callee:
+                    h = P.functions.get(i.callee)
+                    if h is None or not P.own(h):
+                        continue
+                    # the callee (transitively) frees load(param->field) of that struct
+                    for n in cg.reach(h.name):
+                        hh = P.functions.get(n)
+                        if hh is None or not P.own(hh):
+                            continue
+                        for fr in hh.calls(("cjet_free", "cJSON_Delete")):
+                            t = P.term(hh, fr.a[0])
+                            if Q.is_field_load(t, struct, field) is not None:
+                                rel = True
+            if not rel:
+                return False
+        if not found_fail_path:
+            return False
+    return True
 
 
 def clause2_timers(ctx, P, cg):
